@@ -43,6 +43,8 @@ Judge == /\ Check(t, l, "Outcome", res' = e.res)
 (* "The read-only parts of the standard zone API ... are equivalent to doing a single-query
    read-only transaction" *)
 Reader == Check(t, l, "ReaderEquivalent", (HasKey(e, "tval") /\ res' = "ok") => NormVal(e.tval) = val')
+(* "this method does not store a copy of *replacement* at the node, it stores *replacement* itself" *)
+Owned == Check(t, l, "Ownership", (res' = "ok" /\ HasKey(e, "own")) => e.own)
 Count == Check(t, l, "Count", res' = "ok" => e.cnt = Cardinality(val'[2]))
 Wrapper == IF res' = "ok"
            THEN /\ Check(t, l, "ImmutableWrapper",
@@ -63,7 +65,7 @@ TCall ==
     \/ e.op = "find_rdataset" /\ FindRdataset(e.n, e.ty, e.cr) /\ Judge
     \/ e.op = "get_rdataset" /\ GetRdataset(e.n, e.ty, e.cr) /\ Judge /\ Reader
     \/ e.op = "delete_rdataset" /\ DeleteRdataset(e.n, e.ty) /\ Judge
-    \/ e.op = "replace_rdataset" /\ ReplaceRdataset(e.n, e.ty, e.ttl, S(e.rds)) /\ Judge
+    \/ e.op = "replace_rdataset" /\ ReplaceRdataset(e.n, e.ty, e.ttl, S(e.rds)) /\ Judge /\ Owned
     \/ e.op = "find_rrset" /\ FindRRset(e.n, e.ty) /\ Judge
     \/ e.op = "get_rrset" /\ GetRRset(e.n, e.ty) /\ Judge
     \/ e.op = "addto" /\ AddTo(e.n, e.ty, e.ttl, e.rd, e.cr) /\ Judge
@@ -87,7 +89,7 @@ TCall ==
     \/ e.op = "node_find" /\ NodeFind(e.n, e.ty, e.cr) /\ Judge
     \/ e.op = "node_get" /\ NodeGet(e.n, e.ty, e.cr) /\ Judge
     \/ e.op = "node_delete" /\ NodeDel(e.n, e.ty) /\ Judge
-    \/ e.op = "node_replace" /\ NodeRepl(e.n, e.ty, e.ttl, S(e.rds)) /\ Judge
+    \/ e.op = "node_replace" /\ NodeRepl(e.n, e.ty, e.ttl, S(e.rds)) /\ Judge /\ Owned
     \/ e.op = "node_info" /\ NodeInfo(e.n) /\ Judge /\ Wrapper
 
 TraceNext == /\ l <= Len(Ev(t))
